@@ -226,6 +226,20 @@ func genC05(c *ctx) {
 			}
 		}
 	}
+	// a schema that refers to an earlier record BY NAME (the library does not resolve named references: such a pair must be
+	// rejected, whatever was built earlier in the process) - in particular for a field of a different layout
+	{
+		inner := sRecord("Inner", avro.SchemaRecordField{Name: "x", Type: sPrim("long")})
+		strct := func(fields ...sx) sx { return T("struct", append([]sx{hs(""), hs("")}, fields...)...) }
+		fld := func(name, js string, t sx) sx { return T("field", hs(name), A("true"), hs(js), hs(""), t) }
+		innerT := strct(fld("X", "x", tInt(64)))
+		otherT := strct(fld("Y", "y", tString))
+		for _, second := range []sx{otherT, innerT, tString, T("ptr", otherT)} {
+			sch := sRecord("outer", avro.SchemaRecordField{Name: "a", Type: inner}, avro.SchemaRecordField{Name: "b", Type: sPrim("Inner")})
+			ty := strct(fld("A", "a", innerT), fld("B", "b", second))
+			c.emit(T("cread", ty, schemaSx(sch), H([]byte{2, 4})))
+		}
+	}
 	// type confusion at depth: a compatible struct for a random record, with one leaf type replaced
 	kinds := c05Kinds()
 	n := c.scale(400, 8000)
